@@ -108,3 +108,95 @@ package amp
 //   decoding goroutine by type, so its value cannot be named in an assertion here)
 //@   ensures {pipe-closed-on-error} err != nil ==> calls(CloseWithError) == 1
 //@   ensures {pipe-open-on-success} err == nil ==> calls(CloseWithError) == 0 && calls(NewDecoder) == 1
+//
+// ---- AMP URL path codec (C11) ----
+// afterLastSlash(path, a): a is what follows the last '/' of path, and that slash is not the format indicator.
+//@ pred afterLastSlash(path string, a string) = len(a) + 2 <= len(path) && suffixof("/" + a, path) && !contains(a, "/")
+//
+// DecodePath: errors for an empty path, a format indicator other than '0' and a path without a slash after the
+// indicator; otherwise the result is the base64url decoding of exactly what follows the last slash.
+//@ ghost var decodedBase ref
+//@ func DecodePath(path string) (r []byte, err error)
+//@   props C11
+//@   strings smtlib
+//@   ensures {empty} len(path) == 0 ==> err != nil
+//@   ensures {unknown-format} len(path) >= 1 && path[0] != 48 ==> err != nil && calls(DecodeString) == 0
+//@   ensures {no-data} len(path) >= 1 && path[0] == 48 && !contains(substr(path, 1, len(path) - 1), "/") ==> err != nil && calls(DecodeString) == 0
+//@   at call DecodeString assert {decodes-what-follows-the-last-slash} afterLastSlash(path, arg1) && path[0] == 48
+//@   after call DecodeString ghost decodedBase = base(ret0)
+//@   ensures {returns-the-decoding} calls(DecodeString) == 1 ==> base(r) == decodedBase
+//
+// Whatever padding precedes it: for every padding text, what follows the last slash of "0" + pad + "/" + enc is enc,
+// provided enc itself has no slash (base64url output never has: its alphabet is A-Z a-z 0-9 - _).
+//@ lemma path_roundtrip(pad string, enc string, a string): !contains(enc, "/") && afterLastSlash("0" + pad + "/" + enc, a) ==> a == enc
+//@   props C11
+//@   strings smtlib
+//
+// EncodePath: "0", the base64url of 9 random bytes, "/", the base64url of the data.
+//@ ghost var encPad string
+//@ ghost var encData string
+//@ func EncodePath(data []byte) (r string)
+//@   props C11
+//@   strings smtlib
+//@   at call b64#2 assert {encodes-the-data} base(arg0) == base(data) && len(arg0) == len(data)
+//@   after call b64#1 ghost encPad = ret0
+//@   after call b64#2 ghost encData = ret0
+//@   ensures {layout} r == "0" + encPad + "/" + encData
+//
+// ---- AMP cache URL (C11) ----
+// The domain prefix is a single dot-free label of at most 63 bytes: the basic algorithm's output if it is one,
+// else the 52-character SHA-256/base32 fallback.
+//@ func domainPrefixBasic(domain string) (r string, err error)
+//@   props C11
+//@   strings smtlib
+//@   ensures {dot-free} err == nil ==> !contains(r, ".")
+//
+//@ func domainPrefixFallback(domain string) (r string)
+//@   props C11
+//@   strings smtlib
+//@   ensures {52-characters-no-dot} len(r) == 52 && !contains(r, ".")
+//
+//@ func domainPrefix(domain string) (r string)
+//@   props C11
+//@   strings smtlib
+//@   ensures {single-label-of-at-most-63-bytes} len(r) <= 63 && !contains(r, ".")
+//@   ensures {basic-first} calls(domainPrefixBasic) == 1
+//
+// CacheURL: the result keeps the publisher URL's query and fragment, takes scheme and userinfo from the cache URL,
+// its host is domainPrefix(publisher host) + "." + cache host, and its path is the join of, in this order: the cache
+// URL's own path, the content type, "s" iff the publisher scheme is https, the publisher host, the publisher path.
+// Everything the AMP URL format cannot express is an error.
+//@ ghost var cuPrefix string
+//@ ghost var cuCacheHost string
+//@ ghost var cuCachePort string
+//@ ghost var cuCachePort2 string
+//@ ghost var cuCachePath string
+//@ ghost var cuType string
+//@ ghost var cuHost string
+//@ ghost var cuPubPath string
+//@ func CacheURL(pubURL *url.URL, cacheURL *url.URL, contentType string) (r *url.URL, err error)
+//@   props C11
+//@   strings smtlib
+//@   requires pubURL != nil && cacheURL != nil
+//@   after call domainPrefix ghost cuPrefix = ret0
+//@   after call Hostname#2 ghost cuCacheHost = ret0
+//@   after call EscapedPath#1 ghost cuCachePath = ret0
+//@   after call PathEscape#1 ghost cuType = ret0
+//@   after call PathEscape#2 ghost cuHost = ret0
+//@   after call EscapedPath#2 ghost cuPubPath = ret0
+//@   at call EscapedPath#1 assert {cache-path-first} arg0 == cacheURL
+//@   at call PathEscape#1 assert {then-the-content-type} arg0 == contentType
+//@   at call EscapedPath#2 assert {publisher-path-last} arg0 == pubURL
+//@   at call Join assert {path-layout} len(arg0) == ite(pubURL.Scheme == "https", 5, 4) && arg0[0] == cuCachePath && arg0[1] == cuType && (pubURL.Scheme == "https" ==> arg0[2] == "s") && arg0[len(arg0)-2] == cuHost && arg0[len(arg0)-1] == cuPubPath
+//@   ensures {value-or-error} (err == nil) <==> (r != nil)
+//@   ensures {query-and-fragment-of-the-publisher} err == nil ==> r.RawQuery == pubURL.RawQuery && r.Fragment == pubURL.Fragment
+//@   ensures {scheme-and-userinfo-of-the-cache} err == nil ==> r.Scheme == cacheURL.Scheme && r.User == cacheURL.User
+//@   after call Port#1 ghost cuCachePort = ret0
+//@   after call Port#2 ghost cuCachePort2 = ret0
+//@   at call JoinHostPort assert {port-appended-to-prefix-dot-cache} arg0 == cuPrefix + "." + cuCacheHost && arg1 == cuCachePort2 && cuCachePort != ""
+//@   ensures {host-is-prefix-dot-cache} err == nil && cuCachePort == "" ==> r.Host == cuPrefix + "." + cuCacheHost
+//@   ensures {one-prefix-computation} calls(domainPrefix) == 1 && calls(JoinHostPort) == ite(cuCachePort == "", 0, 1)
+//@   ensures {empty-content-type} contentType == "" ==> err != nil
+//@   ensures {http-or-https-only} pubURL.Scheme != "http" && pubURL.Scheme != "https" ==> err != nil
+//@   ensures {no-userinfo} pubURL.User != nil ==> err != nil
+//@   ensures {no-query-or-fragment-on-the-cache} cacheURL.RawQuery != "" || cacheURL.Fragment != "" ==> err != nil
